@@ -17,7 +17,7 @@ META = dict(
     functions=["qucumber/nn_states/neural_state.py: generate_hilbert_space, subspace_vector, max_size", "qucumber/utils/unitaries.py: _convert_basis_element_to_index, _kron_mult, rotate_psi",
                "qucumber/utils/data.py: extract_refbasis_samples"],
     bounds=dict(quick="index identity n = 1..8 on 3 symbolic rows; rotation n=2,3 non-palindromic strings; spaces of size 1..5 all indices; extract_refbasis on 3 rows x 2 sites over the alphabet {X,Y,Z,H}; size 21 refused",
-                thorough="spaces of size 1..7; size 20 accepted (2^20 rows) and 21 refused; 3 rows x 3 sites"),
+                thorough="spaces of size 1..7; size 20 accepted (2^20 rows) and 21 refused; 2 rows x 4 sites"),
     outside=["load_data / load_data_DM: file contents reach the code only through numpy.loadtxt's C parser, which cannot carry symbolic fields - NOT claimed",
              "sizes 8..19 of the Hilbert space (same vectorised code path, not enumerated)"],
     stubs=["torch -> vf.symtorch for part (1); real torch for part (2)"],
@@ -87,6 +87,20 @@ def size_limit(I, big=False):
             pass
         if st.max_size != 20:
             return False, "max_size %r" % st.max_size
+    # the limit applies to the default size (num_visible) as well as to an explicit size
+    for cls, args in ((PositiveWaveFunction, (5, 1)), (ComplexWaveFunction, (5, 1)), (DensityMatrix, (5, 1, 1))):
+        class Small(cls):
+            max_size = property(lambda self: 4)
+
+        s5 = Small(*args, gpu=False)
+        for form, call in (("default size", lambda: s5.generate_hilbert_space()), ("explicit size", lambda: s5.generate_hilbert_space(5))):
+            try:
+                call()
+                return False, "%s: a 5-site space was generated although max_size is 4 (%s)" % (cls.__name__, form)
+            except ValueError:
+                pass
+        if tuple(s5.generate_hilbert_space(4).shape) != (16, 4):
+            return False, "size 4 == max_size must be accepted"
     if big:
         sp = PositiveWaveFunction(2, 1, gpu=False).generate_hilbert_space(20)
         if tuple(sp.shape) != (2 ** 20, 20) or sp[2 ** 19 + 1].tolist() != [1.0] + [0.0] * 18 + [1.0]:
@@ -126,7 +140,7 @@ def specs(tier):
     smax = 5 if tier == "quick" else 7
     S = [dict(name="hilbert", module="checks.c19", function="hilbert", kwargs={}, inputs=dict(size=("int", 1, smax), num=("int", 0, 2 ** smax - 1))),
          dict(name="size-limit", module="checks.c19", function="size_limit", kwargs=dict(big=(tier != "quick")), inputs={})]
-    r, s_ = (3, 2) if tier == "quick" else (3, 3)
+    r, s_ = (3, 2) if tier == "quick" else (2, 4)
     S.append(dict(name="refbasis", module="checks.c19", function="refbasis", kwargs=dict(rows=r, sites=s_),
                   inputs={"c%d_%d" % (i, j): ("int", 0, 3) for i in range(r) for j in range(s_)}))
     return S
